@@ -251,10 +251,10 @@ Definition sc_apply (s : fstate) (o : sc_op) : fstate * list Z :=
     | None => (s, [9])
     end
   | ODeadline h d =>
-    match nth_error (fclosed s) h with
-    | Some false => (set_fdl s (set_nth (fdl s) h d), [0])
-    | Some true => (s, [1])          (* io.ErrClosedPipe, nothing stored *)
-    | None => (s, [9])
+    match nth_error (fclosed s) h, nth_error (fread s) h with
+    | Some false, Some RNone => (set_fdl s (set_nth (fdl s) h d), [0])
+    | Some true, Some RNone => (s, [1])          (* io.ErrClosedPipe, nothing stored *)
+    | _, _ => (s, [9])               (* no such handle, or refused by the harness: a read is in progress on it *)
     end
   | ORStart h =>
     match nth_error (fclosed s) h, nth_error (fread s) h with
